@@ -269,3 +269,52 @@ Theorem C12_source_trait_headers :
   trait_header_of "pub unsafe trait Flatten<T,N,M>" = Some ["N:ArrayLength"; "N:Mul<M>"; "Prod<N,M>:ArrayLength"; "Self:GenericSequence<GenericArray<T,N>,Length=M>"; "fn flatten (self) -> Self :: Output"; "type Output:GenericSequence<T,Length=Prod<N,M>>"] /\
   trait_header_of "pub unsafe trait Unflatten<T,NM,N>" = Some ["N:ArrayLength"; "NM:ArrayLength"; "NM:Div<N>"; "Quot<NM,N>:ArrayLength"; "Self:GenericSequence<T,Length=NM>"; "fn unflatten (self) -> Self :: Output"; "type Output:GenericSequence<GenericArray<T,N>,Length=Quot<NM,N>>"].
 Proof. repeat split. Qed.
+
+(* ---- T1: ALL inherent methods of the crate's types (coq/gen/GenSigs.v gen_fn_sigs).  Method-call syntax tries a
+        type's inherent methods before any trait method and before the methods of the slice it dereferences to: an
+        inherent method added under the name of a trait method (map, zip, fold, concat, flatten, zeroize, ..) or of a
+        slice method silently changes what correct callers run -- or keeps them from compiling ---- *)
+Theorem C12_source_inherent_methods :
+  inherent_methods = [("GenericArray<T,N> where N:ArrayLength", "into_boxed_slice");
+    ("GenericArray<T,N> where N:ArrayLength", "into_vec");
+    ("GenericArray<T,N> where N:ArrayLength", "try_from_boxed_slice");
+    ("GenericArray<T,N> where N:ArrayLength", "try_from_vec");
+    ("GenericArray<T,N> where N:ArrayLength", "default_boxed");
+    ("GenericArray<T,N> where N:ArrayLength", "try_boxed_from_iter");
+    ("GenericArray<T,U> where Self:ConstDefault,T:ConstDefault,U:ArrayLength", "const_default");
+    ("ArrayBuilder<T,N> where N:ArrayLength", "new");
+    ("ArrayBuilder<T,N> where N:ArrayLength", "extend");
+    ("ArrayBuilder<T,N> where N:ArrayLength", "is_full");
+    ("ArrayBuilder<T,N> where N:ArrayLength", "iter_position");
+    ("ArrayBuilder<T,N> where N:ArrayLength", "assume_init");
+    ("IntrusiveArrayBuilder<,T,N> where N:ArrayLength", "new");
+    ("IntrusiveArrayBuilder<,T,N> where N:ArrayLength", "extend");
+    ("IntrusiveArrayBuilder<,T,N> where N:ArrayLength", "is_full");
+    ("IntrusiveArrayBuilder<,T,N> where N:ArrayLength", "iter_position");
+    ("IntrusiveArrayBuilder<,T,N> where N:ArrayLength", "finish");
+    ("IntrusiveArrayBuilder<,T,N> where N:ArrayLength", "array_assume_init");
+    ("ArrayConsumer<T,N> where N:ArrayLength", "new");
+    ("ArrayConsumer<T,N> where N:ArrayLength", "iter_position");
+    ("GenericArrayIter<T,N> where N:ArrayLength", "as_slice");
+    ("GenericArrayIter<T,N> where N:ArrayLength", "as_mut_slice");
+    ("GenericArray<T,N> where N:ArrayLength", "len");
+    ("GenericArray<T,N> where N:ArrayLength", "as_slice");
+    ("GenericArray<T,N> where N:ArrayLength", "as_mut_slice");
+    ("GenericArray<T,N> where N:ArrayLength", "from_slice");
+    ("GenericArray<T,N> where N:ArrayLength", "try_from_slice");
+    ("GenericArray<T,N> where N:ArrayLength", "from_mut_slice");
+    ("GenericArray<T,N> where N:ArrayLength", "try_from_mut_slice");
+    ("GenericArray<T,N> where N:ArrayLength", "chunks_from_slice");
+    ("GenericArray<T,N> where N:ArrayLength", "chunks_from_slice_mut");
+    ("GenericArray<T,N> where N:ArrayLength", "slice_from_chunks");
+    ("GenericArray<T,N> where N:ArrayLength", "slice_from_chunks_mut");
+    ("GenericArray<T,N> where N:ArrayLength", "from_array");
+    ("GenericArray<T,N> where N:ArrayLength", "into_array");
+    ("GenericArray<T,N> where N:ArrayLength", "from_chunks");
+    ("GenericArray<T,N> where N:ArrayLength", "from_chunks_mut");
+    ("GenericArray<T,N> where N:ArrayLength", "into_chunks");
+    ("GenericArray<T,N> where N:ArrayLength", "into_chunks_mut");
+    ("GenericArray<T,N> where N:ArrayLength", "uninit");
+    ("GenericArray<T,N> where N:ArrayLength", "assume_init");
+    ("GenericArray<T,N> where N:ArrayLength", "try_from_iter")].
+Proof. reflexivity. Qed.
